@@ -135,6 +135,30 @@ pub fn guise_family(name: &'static str) -> Family {
     Family { name, keys: vec![a.public().clone(), a2.public().clone(), b.public().clone()], key_names: vec!["A", "A2", "B"], mats: vec![0, 0, 2], meta, entries }
 }
 
+/// Keys whose declared scheme cannot verify anything: A's Ed25519 material declared RSA-PSS (M),
+/// ECDSA material declared with an unknown scheme (U). A signature attributed to them never counts,
+/// whatever its bytes are; A itself (well declared) is in the family for comparison.
+pub fn odd_scheme_family() -> Family {
+    use in_toto::crypto::SignatureScheme;
+    let meta = the_meta();
+    let a = keys::get("ed1");
+    let ec = keys::get("ec1");
+    let va = world::sign(meta.clone(), &[a]).signatures[0].clone();
+    let vec_ = world::sign(meta.clone(), &[ec]).signatures[0].clone();
+    let m = PublicKey::from_spki(keys::ED_SPKI_RFC8410[0], SignatureScheme::RsaSsaPssSha256).expect("ed25519 material declared rsa-pss");
+    let u = PublicKey::from_ecdsa_with_keyid_hash_algorithm(ec.public().as_bytes().to_vec(), SignatureScheme::Unknown("ecdsa-sha2-nistp384".into()), None).expect("ecdsa material with an unknown scheme");
+    let id_of = |k: &PublicKey| -> String { serde_json::to_value(k.key_id()).unwrap().as_str().unwrap().to_string() };
+    let e = |n: &str, sig: Signature, label: usize, valid: bool| Entry { name: n.to_string(), sig, label, valid };
+    let entries = vec![
+        e("vA", va.clone(), 0, true),
+        e("vA@M", sig_json(&id_of(&m), &sig_hex(&va)), 1, false),
+        e("vEC@U", sig_json(&id_of(&u), &sig_hex(&vec_)), 2, false),
+        e("empty@M", sig_json(&id_of(&m), ""), 1, false),
+        e("zeros@U", sig_json(&id_of(&u), &"00".repeat(70)), 2, false),
+    ];
+    Family { name: "odd-schemes", keys: vec![a.public().clone(), m, u], key_names: vec!["A", "M", "U"], mats: vec![0, 10, 11], meta, entries }
+}
+
 /// Reference: the set of distinct keys (by material) that are authorised and have a valid
 /// entry in the list.
 fn counting(f: &Family, list: &[usize], auth: &[usize]) -> BTreeSet<usize> {
@@ -328,6 +352,7 @@ fn family_by_name(name: &str) -> Family {
         "mixed" => family("mixed", ["ed1", "ec1", "rsa256a"]),
         "guise-ed25519" => guise_family("guise-ed25519"),
         "guise-rsa" => guise_family("guise-rsa"),
+        "odd-schemes" => odd_scheme_family(),
         _ => family("ed25519", ["ed1", "ed2", "ed3"]),
     }
 }
@@ -344,6 +369,7 @@ pub fn run(tier: Tier) -> i32 {
         (family_by_name("mixed"), reduced),
         (family_by_name("guise-ed25519"), full),
         (family_by_name("guise-rsa"), reduced + 1),
+        (family_by_name("odd-schemes"), full),
     ];
     // self-test: randomized schemes give two different valid signatures (rA != vA)
     let differ = sig_hex(&fams[1].0.entries[0].sig) != sig_hex(&fams[1].0.entries[5].sig);
@@ -378,7 +404,7 @@ pub fn run(tier: Tier) -> i32 {
         acc.merge(Acc::merge_all(accs));
     }
     c.acc = acc;
-    c.rule = "state = signature list (sequence over {valid by A/B/C, garbage labelled A, B's signature relabelled A, second valid signature by A, empty labelled A, A's / B's valid signature under an unknown key id, A's signature over other content, A's valid signature under an id sharing A's first 8 characters / under A's id in upper case}); transition = append one entry; each state is verified for every authorised sequence over {A,B,C} of length <= 3 (with duplicates, and empty) x thresholds {0,1,2,3,u32::MAX} x every iteration order of the internal signature map; two more families have ONE key loaded twice (A, A2: Ed25519 with / without a hash-algorithm list; one RSA modulus declared PSS-SHA256 / PSS-SHA512) next to an unrelated B, with each guise's signature under its own and under the other guise's id: distinct keys are counted by key material; non-trivial = list with an invalid entry, a repeated key id or one key under two ids".into();
+    c.rule = "state = signature list (sequence over {valid by A/B/C, garbage labelled A, B's signature relabelled A, second valid signature by A, empty labelled A, A's / B's valid signature under an unknown key id, A's signature over other content, A's valid signature under an id sharing A's first 8 characters / under A's id in upper case}); transition = append one entry; each state is verified for every authorised sequence over {A,B,C} of length <= 3 (with duplicates, and empty) x thresholds {0,1,2,3,u32::MAX} x every iteration order of the internal signature map; two more families have ONE key loaded twice (A, A2: Ed25519 with / without a hash-algorithm list; one RSA modulus declared PSS-SHA256 / PSS-SHA512) next to an unrelated B, with each guise's signature under its own and under the other guise's id: distinct keys are counted by key material; one family has authorised keys whose declared scheme does not fit their material (Ed25519 material declared RSA-PSS) or is unknown: nothing attributed to them counts; non-trivial = list with an invalid entry, a repeated key id or one key under two ids".into();
     c.bound_completed = bounds.join("; ");
     c.assume("ring's verification primitives are a trusted black box; three fixed keys per family");
     c.assume("sufficiency is only demanded when every key id occurs at most once in the list and no key appears under two ids (as the statement says: each key signs at most once)");
